@@ -1394,6 +1394,75 @@ pub fn run<'tcx>(tcx: TyCtxt<'tcx>) {
             }
         }
     }
+    // base iteration through the trait's own `Mer::iter` (k-mer types and containers alike): for the crate-local iterator type it returns,
+    // every method of its `impl Iterator`
+    if let (Some(tm), Some(t_iter)) = (t_mer, tcx.get_diagnostic_item(rustc_span::sym::Iterator)) {
+        let iter_m = tcx.associated_items(tm).in_definition_order().find(|it| it.is_fn() && it.name().as_str() == "iter").map(|it| it.def_id);
+        if let Some(iter_m) = iter_m {
+            let mut subjects: Vec<Ty<'tcx>> = Vec::new();
+            for (kt, _) in ktypes.iter() {
+                subjects.push(*kt);
+            }
+            for c in containers.iter() {
+                subjects.push(*c);
+            }
+            for sty in subjects.iter() {
+                let sty = *sty;
+                let args = tcx.mk_args(&[GenericArg::from(sty)]);
+                let r = std::panic::catch_unwind(std::panic::AssertUnwindSafe(|| {
+                    Instance::try_resolve(tcx, env_mono, iter_m, args).ok().flatten()
+                }));
+                let Ok(Some(inst)) = r else { continue };
+                if !inst.def_id().is_local() {
+                    continue;
+                }
+                let rt = std::panic::catch_unwind(std::panic::AssertUnwindSafe(|| {
+                    let body = tcx.instance_mir(inst.def);
+                    let t0 = body.local_decls[mir::RETURN_PLACE].ty;
+                    inst.instantiate_mir_and_normalize_erasing_regions(tcx, env_mono, EarlyBinder::bind(t0))
+                }));
+                let Ok(ity) = rt else { continue };
+                let ty::Adt(iad, _) = ity.kind() else { continue };
+                if !iad.did().is_local() {
+                    continue;
+                }
+                for imp in tcx.all_impls(t_iter) {
+                    if !imp.is_local() {
+                        continue;
+                    }
+                    let st = tcx.type_of(imp).instantiate_identity().skip_norm_wip();
+                    let ty::Adt(ad, _) = st.kind() else { continue };
+                    if ad.did() != iad.did() {
+                        continue;
+                    }
+                    for it in tcx.associated_items(imp).in_definition_order() {
+                        if !it.is_fn() {
+                            continue;
+                        }
+                        let Some(tm_) = it.trait_item_def_id() else { continue };
+                        if tcx.generics_of(tm_).count() != 1 {
+                            continue;
+                        }
+                        let a2 = tcx.mk_args(&[GenericArg::from(ity)]);
+                        let r2 = std::panic::catch_unwind(std::panic::AssertUnwindSafe(|| {
+                            Instance::try_resolve(tcx, env_mono, tm_, a2).ok().flatten()
+                        }));
+                        if let Ok(Some(i2)) = r2 {
+                            roots.push((
+                                i2,
+                                J::obj()
+                                    .with("trait", J::s("Iterator"))
+                                    .with("method", J::s(tcx.item_name(tm_).to_string()))
+                                    .with("self", J::s(tystr(ity)))
+                                    .with("of", J::s(tystr(sty)))
+                                    .with("via", J::s("Mer::iter")),
+                            ));
+                        }
+                    }
+                }
+            }
+        }
+    }
     // the k-mer iterators over sequence containers: every method of `impl Iterator for KmerIter / KmerExtsIter` (next and any
     // overridden provided method), for every container x a spread of k-mer types
     if let Some(t_iter) = tcx.get_diagnostic_item(rustc_span::sym::Iterator) {
